@@ -7,15 +7,15 @@ import (
 // Template syntax trees and the reference rendering semantics of property C10.
 
 type TNode struct {
-	Kind   string   `json:"k"`           // "text" "var" "comment" "section"
-	Text   string   `json:"t,omitempty"` // text, variable / section name, comment body
-	Triple bool     `json:"3,omitempty"` // triple braces (escaped variable; allowed on every tag)
-	Inv    bool     `json:"i,omitempty"` // inverted section
-	Open   string   `json:"o,omitempty"` // spelling of the section opening: "#", "#if", "^", "#unless"
-	Close  string   `json:"c,omitempty"` // spelling of the section end: "name", "if", "unless"
-	Pad    [3]string `json:"p"`          // blanks inside the tag: after the braces/operator, before the name, before the closing braces
-	Pad2   [3]string `json:"q"`          // the same for the section end tag
-	Body   []*TNode `json:"b,omitempty"`
+	Kind   string    `json:"k"`           // "text" "var" "comment" "section"
+	Text   string    `json:"t,omitempty"` // text, variable / section name, comment body
+	Triple bool      `json:"3,omitempty"` // triple braces (escaped variable; allowed on every tag)
+	Inv    bool      `json:"i,omitempty"` // inverted section
+	Open   string    `json:"o,omitempty"` // spelling of the section opening: "#", "#if", "^", "#unless"
+	Close  string    `json:"c,omitempty"` // spelling of the section end: "name", "if", "unless"
+	Pad    [3]string `json:"p"`           // blanks inside the tag: after the braces/operator, before the name, before the closing braces
+	Pad2   [3]string `json:"q"`           // the same for the section end tag
+	Body   []*TNode  `json:"b,omitempty"`
 }
 
 func braces(triple bool) (string, string) {
